@@ -16,6 +16,8 @@ import (
 // channel is closed and the callback fired exactly once.
 func c11Loss(pending int) {
 	s := newZZStream()
+	// closing a broken transport may itself report an error (TLS close_notify after a reset...)
+	s.closeErr = sym.Bool("close-reports-an-error")
 	e := net.NewEndPoint(s)
 	c := NewClient(NewChannel(e, DefaultCap()))
 	var disconnects int32
@@ -170,4 +172,48 @@ func C11CallRacingWithLoss() {
 	_, err := c.Call(nil, 1, 1, 8, nil)
 	sym.Assert(err != nil, "call-after-loss-succeeded")
 	sym.Reach("racing-call-done")
+}
+
+// C11CloseRacingWithReply: the reply to a pending call and an event for a subscription are being
+// dispatched while the local side closes the connection: no crash (a send on a closed queue is a
+// panic), the call returns (result or error), the subscription channel ends up closed, the
+// disconnect callback fires exactly once.
+func C11CloseRacingWithReply() {
+	s := newZZStream()
+	e := net.NewEndPoint(s)
+	c := NewClient(NewChannel(e, DefaultCap()))
+	var disconnects int32
+	c.OnDisconnect(func(err error) { atomic.AddInt32(&disconnects, 1) })
+	_, events, err := c.Subscribe(1, 1, 5)
+	sym.Assert(err == nil, "subscribe-ok")
+	done := make(chan zzCallRes, 1)
+	go func() {
+		p, err := c.Call(nil, 1, 1, 7, []byte{1})
+		done <- zzCallRes{p, err}
+	}()
+	sym.Quiesce()
+	calls := s.sentMessages()
+	sym.Assert(len(calls) == 1, "call-frame-sent")
+	if len(calls) != 1 {
+		return
+	}
+	h := calls[0].Header
+	h.Type = net.Reply
+	go func() {
+		s.inject(net.NewMessage(net.NewHeader(net.Event, 1, 1, 5, 9), []byte{3}))
+		s.inject(net.NewMessage(h, []byte{2}))
+	}()
+	go func() { e.Close() }()
+	sym.Quiesce()
+	r := <-done
+	if r.err == nil {
+		sym.Assert(len(r.payload) == 1 && r.payload[0] == 2, "close-race/reply-altered")
+	}
+	n := 0
+	for range events {
+		n++
+	}
+	sym.Assert(n <= 1, "close-race/event-duplicated")
+	sym.Assert(atomic.LoadInt32(&disconnects) == 1, "disconnect-callback-exactly-once")
+	sym.Reach("close-race-done")
 }
